@@ -118,6 +118,10 @@ func (d *driver) behaviour(steps int, r int) {
 	d.root = d.lg.Add(0, d.run, "Init", M{"mode": d.mode}, M{"ok": true}, M{"cfg": f.Config(), "m": st0["m"], "x": st0["x"]})
 	d.node = d.root
 	poolAssets := [][2]uint64{{1, 1}, {1, 2}, {1, 3}, {2, 4}, {2, 2}, {2, 3}}
+	if f.V.LowT1 { // keep pool 1 short of its first transit asset: cross-pool borrows from pool 1 bridge through the second one
+		poolAssets = [][2]uint64{{1, 1}, {1, 1}, {1, 1}, {1, 3}, {2, 4}, {2, 2}, {2, 3}}
+	}
+	killLeft := 0
 	pairsOf := func(asset, pool uint64) []uint64 {
 		m, _ := k.GetAssetToPair(e.Ctx, asset, pool)
 		return m.PairID
@@ -128,6 +132,7 @@ func (d *driver) behaviour(steps int, r int) {
 			d.do("FundReserve", M{"u": "u1", "asset": int64(a.ID), "da": int64(a.ID), "amt": f.V.Fund / 50})
 		}
 	}
+	d.preface(r)
 	for s := 0; s < steps; s++ {
 		lends := k.GetAllLend(e.Ctx)
 		borrows := k.GetAllBorrow(e.Ctx)
@@ -145,7 +150,16 @@ func (d *driver) behaviour(steps int, r int) {
 				myB = append(myB, b)
 			}
 		}
-		w := []int{10, 5, 8, 3, 14, 4, 5, 8, 8, 3, 2, 3, 2, 12, 4, 3, 5}
+		if killLeft > 0 { // the circuit breaker stays on for a few steps only
+			killLeft--
+			if killLeft == 0 {
+				d.do("Kill", M{"on": false})
+			}
+		}
+		w := []int{10, 5, 8, 3, 14, 4, 5, 8, 8, 3, 2, 3, 2, 12, 4, 5, 7, 1}
+		if f.V.LowT1 {
+			w[4], w[5], w[15] = 20, 8, 10
+		}
 		if len(myL) == 0 {
 			w[1], w[2], w[3], w[4] = 0, 0, 0, 0
 		}
@@ -174,10 +188,24 @@ func (d *driver) behaviour(steps int, r int) {
 			d.do("CloseLend", M{"u": u, "lend": int64(l.ID)})
 		case 4: // Borrow around the LTV boundary
 			l := myL[rng.Intn(len(myL))]
+			if f.V.LowT1 && rng.Intn(3) > 0 { // positions of pool 1's main asset: their cross-pool pair bridges through the second transit asset
+				for _, x := range myL {
+					if x.PoolID == 1 && x.AssetID == 1 && x.AvailableToBorrow.IsPositive() {
+						l = x
+					}
+				}
+			}
 			ps := pairsOf(l.AssetID, l.PoolID)
 			var pid uint64
 			if len(ps) > 0 {
 				pid = ps[rng.Intn(len(ps))]
+				if f.V.LowT1 && rng.Intn(4) > 0 { // more cross-pool borrows where the first transit asset is scarce
+					for _, q := range ps {
+						if d.pair(q).IsInterPool {
+							pid = q
+						}
+					}
+				}
 			}
 			ca := int64(l.AssetID)
 			if rng.Intn(10) == 0 || pid == 0 { // a pair of another asset of the same pool (probe: collateral asset mismatch)
@@ -266,30 +294,184 @@ func (d *driver) behaviour(steps int, r int) {
 				np = 40
 			}
 			d.do("Price", M{"asset": int64(a.ID), "p": np})
-		case 15: // V2 liquidation request for a borrow (internal keeper message)
+		case 15: // V2 liquidation: move prices just below / just above the position's threshold, then the message or the sweep
 			b := borrows[rng.Intn(len(borrows))]
-			if rng.Intn(2) == 0 { // make it unsafe first: the collateral asset loses value
-				p := d.pair(b.PairID)
-				cur := d.price(p.AssetIn) / PU
-				np := cur / int64(2+rng.Intn(3))
-				if np < 1 {
-					np = 1
-					d.do("Price", M{"asset": int64(p.AssetOut), "p": int64(10 + rng.Intn(30))})
+			if rng.Intn(2) == 0 { // prefer cross-pool (bridged) positions that are still open
+				var br []lendtypes.BorrowAsset
+				for _, x := range borrows {
+					if x.BridgedAssetAmount.Amount.IsPositive() && !x.IsLiquidated {
+						br = append(br, x)
+					}
 				}
-				d.do("Price", M{"asset": int64(p.AssetIn), "p": np})
+				if len(br) > 0 {
+					b = br[rng.Intn(len(br))]
+				}
 			}
-			d.do("Liquidate", M{"u": "kp", "b": int64(b.ID)})
+			switch rng.Intn(5) {
+			case 0, 1:
+				d.aim(b, 1.0, 1.12) // just unsafe
+			case 2:
+				d.aim(b, 0.90, 1.0) // just safe (inside the band between LTV and threshold)
+			case 3:
+				d.aim(b, 1.0, 3.0)
+			}
+			if rng.Intn(3) == 0 { // the per-block sweep (small batch sizes): a burst of blocks
+				for n := 2 + rng.Intn(5); n > 0; n-- {
+					if r := d.do("Tick", M{"dt": int64(6)}); getb(r, "panic") {
+						return
+					}
+				}
+			} else {
+				d.do("Liquidate", M{"u": "kp", "b": int64(b.ID)})
+			}
 		case 16: // bid on a running auction (full or partial)
 			aucs := e.App.NewaucKeeper.GetAuctions(e.Ctx)
 			if len(aucs) == 0 {
 				continue
 			}
 			a := aucs[rng.Intn(len(aucs))]
-			amt := i64(a.DebtToken.Amount)
-			if rng.Intn(4) == 0 {
-				amt = pos(amt / 2)
-			}
+			left := i64(a.DebtToken.Amount)
+			amt := pos([]int64{left, left, left + 1 + int64(rng.Intn(50)), left / 2, left / 3, left - 1, 1, 2, left * 3}[rng.Intn(9)])
 			d.do("Bid", M{"u": "kp", "auc": int64(a.AuctionId), "da": f.assetOfDenom(a.DebtToken.Denom), "amt": amt})
+		case 17: // circuit breaker on for a few steps
+			if killLeft == 0 {
+				d.do("Kill", M{"on": true})
+				killLeft = 2 + rng.Intn(4)
+				if len(borrows) > 0 && rng.Intn(2) == 0 {
+					b := borrows[rng.Intn(len(borrows))]
+					d.aim(b, 1.0, 3.0)
+					if rng.Intn(2) == 0 {
+						d.do("Liquidate", M{"u": "kp", "b": int64(b.ID)})
+					} else {
+						d.do("Tick", M{"dt": int64(6)})
+					}
+				}
+			}
+		}
+	}
+}
+
+// aim moves the oracle prices of the position's collateral and debt assets so that debt value / collateral value lands in
+// (lo, hi] times the liquidation threshold that applies to the position (plain, e-mode, or the product with the bridged asset's).
+func (d *driver) aim(b lendtypes.BorrowAsset, lo, hi float64) {
+	k := d.e.App.LendKeeper
+	p := d.pair(b.PairID)
+	rp, _ := k.GetAssetRatesParams(d.e.Ctx, p.AssetIn)
+	thr := rp.LiquidationThreshold.MustFloat64()
+	if p.IsEModeEnabled {
+		thr = rp.ELiquidationThreshold.MustFloat64()
+	}
+	if b.BridgedAssetAmount.Amount.IsPositive() {
+		if ba := d.f.assetOfDenom(b.BridgedAssetAmount.Denom); ba != 0 {
+			brp, _ := k.GetAssetRatesParams(d.e.Ctx, uint64(ba))
+			thr *= brp.LiquidationThreshold.MustFloat64()
+		}
+	}
+	debt := float64(i64(b.AmountOut.Amount)+i64(b.InterestAccumulated.TruncateInt())) / float64(d.asset(p.AssetOut).Dec)
+	col := float64(i64(b.AmountIn.Amount)) / float64(d.asset(p.AssetIn).Dec)
+	if col <= 0 || debt <= 0 || thr <= 0 {
+		return
+	}
+	var cands [][2]int64
+	for pi := int64(1); pi <= 40; pi++ {
+		for po := int64(1); po <= 40; po++ {
+			r := debt * float64(po) / (col * float64(pi)) / thr
+			if r > lo && r <= hi {
+				cands = append(cands, [2]int64{pi, po})
+			}
+		}
+	}
+	if len(cands) == 0 {
+		return
+	}
+	c := cands[d.rng.Intn(len(cands))]
+	if d.price(p.AssetIn)/PU != c[0] {
+		d.do("Price", M{"asset": int64(p.AssetIn), "p": c[0]})
+	}
+	if d.price(p.AssetOut)/PU != c[1] {
+		d.do("Price", M{"asset": int64(p.AssetOut), "p": c[1]})
+	}
+}
+
+// preface: a short scripted opening so that the rarer situations are present in every log (the seeded steps follow it)
+func (d *driver) preface(r int) {
+	f, e, k := d.f, d.e, d.e.App.LendKeeper
+	amt := d.amount() + 500
+	lastBorrow := func() (lendtypes.BorrowAsset, bool) {
+		bs := k.GetAllBorrow(e.Ctx)
+		if len(bs) == 0 {
+			return lendtypes.BorrowAsset{}, false
+		}
+		return bs[len(bs)-1], true
+	}
+	lendID := func(u string, asset, pool uint64) int64 {
+		for _, l := range k.GetAllLend(e.Ctx) {
+			if f.name(l.Owner) == u && l.AssetID == asset && l.PoolID == pool {
+				return int64(l.ID)
+			}
+		}
+		return 0
+	}
+	switch {
+	case f.V.LowT1:
+		// cross-pool borrow from pool 1 while pool 1 lacks its first transit asset: bridged through the second one; then a liquidation
+		// request with the ratio just below the applicable threshold (nothing may happen), just above it (seizure), and a closing bid
+		d.do("Lend", M{"u": "u1", "pool": int64(1), "asset": int64(1), "da": int64(1), "amt": amt})
+		p := d.pair(5)
+		l := d.ltvOf(p)
+		t2, _ := k.GetAssetRatesParams(e.Ctx, f.Assets[2].ID)
+		l2 := frac(t2.Ltv)
+		t1, _ := k.GetAssetRatesParams(e.Ctx, f.Assets[1].ID)
+		l1 := frac(t1.Ltv)
+		loan := pos(d.maxLoan(amt, p.AssetIn, p.AssetOut, []int64{l[0] * l2[0] * l1[1], l[1] * l2[1] * l1[0]}) - 1)
+		d.do("Borrow", M{"u": "u1", "lend": lendID("u1", 1, 1), "pair": int64(5), "ca": int64(1), "cin": amt, "la": int64(p.AssetOut), "loan": loan, "stable": false, "mis": false})
+		if b, ok := lastBorrow(); ok && b.PairID == 5 {
+			d.aim(b, 0.92, 1.0)
+			d.do("Liquidate", M{"u": "kp", "b": int64(b.ID)})
+			d.do("Tick", M{"dt": int64(6)})
+			d.aim(b, 1.0, 1.1)
+			if r%4 == 1 {
+				d.do("Liquidate", M{"u": "kp", "b": int64(b.ID)})
+			} else {
+				d.do("Tick", M{"dt": int64(6)})
+				d.do("Tick", M{"dt": int64(6)})
+			}
+			for _, a := range e.App.NewaucKeeper.GetAuctions(e.Ctx) {
+				d.do("Bid", M{"u": "kp", "auc": int64(a.AuctionId), "da": f.assetOfDenom(a.DebtToken.Denom), "amt": pos(i64(a.DebtToken.Amount) / 3)})
+				d.do("Tick", M{"dt": int64(600)})
+				d.do("Bid", M{"u": "kp", "auc": int64(a.AuctionId), "da": f.assetOfDenom(a.DebtToken.Denom), "amt": i64(a.DebtToken.Amount) + 5})
+			}
+		}
+	case r%4 == 2:
+		// several positions become unsafe at once; the sweep (batch 1..3) needs more than one block for them
+		p := d.pair(2)
+		for _, u := range f.V.Users {
+			d.do("Lend", M{"u": u, "pool": int64(1), "asset": int64(1), "da": int64(1), "amt": amt})
+			loan := pos(d.maxLoan(amt, p.AssetIn, p.AssetOut, d.ltvOf(p)) * 9 / 10)
+			d.do("Borrow", M{"u": u, "lend": lendID(u, 1, 1), "pair": int64(2), "ca": int64(1), "cin": amt, "la": int64(p.AssetOut), "loan": loan, "stable": false, "mis": false})
+		}
+		if b, ok := lastBorrow(); ok {
+			d.aim(b, 1.05, 1.5)
+			for n := 0; n < 7; n++ {
+				d.do("Tick", M{"dt": int64(6)})
+			}
+		}
+	case r%4 == 0:
+		// interest and lend rewards: a year passes on a well-used pool, then the positions are touched
+		d.do("Lend", M{"u": "u2", "pool": int64(1), "asset": int64(2), "da": int64(2), "amt": amt * 10})
+		d.do("Lend", M{"u": "u1", "pool": int64(1), "asset": int64(1), "da": int64(1), "amt": amt * 4})
+		p := d.pair(1)
+		loan := pos(d.maxLoan(amt*4, p.AssetIn, p.AssetOut, d.ltvOf(p)) * 8 / 10)
+		d.do("Borrow", M{"u": "u1", "lend": lendID("u1", 1, 1), "pair": int64(1), "ca": int64(1), "cin": amt * 4, "la": int64(p.AssetOut), "loan": loan, "stable": false, "mis": false})
+		d.do("Tick", M{"dt": int64(31557600)})
+		d.do("CalcInterest", M{"u": "u1"})
+		if b, ok := lastBorrow(); ok {
+			it := i64(b.InterestAccumulated.TruncateInt())
+			d.do("Repay", M{"u": "u1", "b": int64(b.ID), "da": int64(p.AssetOut), "amt": pos(it + loan/10)})
+			d.do("Tick", M{"dt": int64(15552000)})
+			d.do("CalcInterest", M{"u": "u2"})
+			d.do("Draw", M{"u": "u1", "b": int64(b.ID), "da": int64(p.AssetOut), "amt": pos(loan / 20)})
+			d.do("Deposit", M{"u": "u2", "lend": lendID("u2", 2, 1), "da": int64(2), "amt": int64(7)})
 		}
 	}
 }
